@@ -497,6 +497,66 @@ pub fn run(o: &Opts) -> i32 {
         l.histn("history_len", n as u64);
         l.sample(|| J::obj().set("history", objops::sample_history(&st)));
     }));
+    // the bit trick behind is_valid_and_normalized(): has_sequences(x, n) <=> x has n consecutive one bits
+    streams.push(Stream::new("has_sequences-definition", o.n(4_000, 200_000), |i, rng: &mut Rng, l: &mut Local| {
+        use ssdeep::internal_comparison::block_hash_position_array_element::{has_sequences, has_sequences_const};
+        // words made of runs of ones of chosen lengths, so that every threshold is met exactly / missed by one
+        let mut x: u64 = 0;
+        let mut pos = 0u32;
+        match i % 4 {
+            0 => x = rng.next(),
+            1 => x = rng.next() & rng.next() | (rng.next() & rng.next() & rng.next()),
+            _ => {
+                while pos < 64 {
+                    let run = if rng.chance(1, 6) { rng.urange(1, 64) as u32 } else { rng.urange(1, 9) as u32 };
+                    let run = run.min(64 - pos);
+                    if run == 64 {
+                        x = u64::MAX;
+                    } else {
+                        x |= ((1u64 << run) - 1) << pos;
+                    }
+                    pos += run + 1 + rng.below(3) as u32;
+                }
+            }
+        }
+        if i == 0 {
+            x = u64::MAX;
+        } else if i == 1 {
+            x = 0;
+        } else if i == 2 {
+            x = u64::MAX >> 1;
+        } else if i == 3 {
+            x = u64::MAX << 1;
+        }
+        // longest run of ones, naively
+        let (mut best, mut cur) = (0u32, 0u32);
+        for b in 0..64 {
+            if (x >> b) & 1 == 1 {
+                cur += 1;
+                best = best.max(cur);
+            } else {
+                cur = 0;
+            }
+        }
+        for n in 0..=70u32 {
+            l.eval(1);
+            let got = has_sequences(x, n);
+            l.check(got == (n <= best), "has_sequences", || {
+                (format!("C11|has_sequences|{:016x}|{}", x, n), format!("has_sequences({:#018x}, {}) = {} but the longest run of one bits is {}", x, n, got, best))
+            });
+        }
+        macro_rules! konst {
+            ($($n:expr),*) => {$(
+                l.eval(1);
+                let got = has_sequences_const::<$n>(x);
+                l.check(got == ($n <= best), "has_sequences_const", || {
+                    (format!("C11|has_sequences_const|{:016x}|{}", x, $n), format!("has_sequences_const::<{}>({:#018x}) = {} but the longest run of one bits is {}", $n, x, got, best))
+                });
+            )*};
+        }
+        konst!(0, 1, 2, 3, 4, 5, 6, 7, 8, 9, 15, 16, 17, 31, 32, 33, 47, 48, 63, 64, 65);
+        l.nt(x);
+    }));
     // parsing is a safe operation too: whatever a parser returns as Ok must be a valid object
     streams.push(Stream::new("parse-hostile-texts", o.n(60_000, 4_000_000), |i, rng: &mut Rng, l: &mut Local| {
         let t = if i % 8 == 0 {
